@@ -95,12 +95,23 @@ func runCloseEdge(c *edgeCase, size int64, bf *service.VerifBuffer, where string
 }
 
 // runEdge puts a real buffer into the state of the case, makes the call and compares with the specification.
-func runEdge(c *edgeCase, size int64) (string, string) {
+func runEdge(c *edgeCase, size int64) (d string, tag string) {
 	bf, err := service.VerifNewBuffer(size)
 	if err != nil {
 		return "INFRA newBuffer: " + err.Error(), "INFRA"
 	}
-	defer bf.Close()
+	// every case ends with a Close (a second one, for the Close cases): it has to return whatever happened before
+	defer func() {
+		ch := make(chan struct{})
+		go func() { bf.Close(); close(ch) }()
+		select {
+		case <-ch:
+		case <-time.After(3 * time.Second):
+			if d == "" {
+				d, tag = fmt.Sprintf("ring of %d bytes (case %s/%s n=%d): BLOCKED: a final Close does not return within 3 s (a mutex of the buffer was left locked)", size, c.Side, c.Waiter, c.N), "C15"
+			}
+		}
+	}()
 	var produced, consumed int64
 	write := func(n int) error {
 		b := make([]byte, n)
